@@ -156,6 +156,9 @@ func init() {
 		reproDeferredCrossing(c, a)
 		partIntegrityStorm(c, a)
 		partRealBinaryIntegrity(c, a, false)
+		// what ends or begins in one session must not touch another one's registration
+		partGated(c, a, []func(*sut.Proc) *e2.Result{e2.G3LateUnregister, e2.G3cLastLeaveVsCreate}, c.Pick(1, 4))
+		partStepThrough(c, a, []string{"lastleave", "create"})
 		return a.finish(c)
 	}
 	registry["C17"] = checkC17
